@@ -346,6 +346,11 @@ func cmdCheck(args []string) int {
 			}
 		}
 	}
+	for _, ss := range e.staleTagged {
+		if specMentions(ss.spec, *prop) {
+			e.stale = append(e.stale, ss.msg)
+		}
+	}
 	for _, s := range e.stale {
 		staleMsgs = append(staleMsgs, s)
 	}
@@ -409,7 +414,16 @@ func cmdCheck(args []string) int {
 		if _, ok := kfBy[kname]; !ok {
 			kname = stripOrdinal(o.Name)
 		}
-		if ks, ok := kfBy[kname]; ok {
+		ks, ok := kfBy[kname]
+		if !ok {
+			// a finding about a field ("...#frame:final:T.f", "...#guarded:T.f:read") stays the same
+			// finding when the offending statement moves to another function: match by the part
+			// after the function name when the entry is written as "*#<rest>"
+			if i := strings.Index(kname, "#"); i >= 0 {
+				ks, ok = kfBy["*"+kname[i:]]
+			}
+		}
+		if ok {
 			for _, k := range ks {
 				if k.Witness == "" {
 					knownLines = append(knownLines, fmt.Sprintf("KNOWN-FINDING: property=%s %s [%s]", *prop, k.What, o.Name))
